@@ -30,6 +30,8 @@ Added while testing against seeded changes: R1-total-counted-per-attempt — the
 the distribution is counted inside the retried unit (_do_autopack itself, or inside autopack's retry loop when handed in
 as an argument), never once before the loop; R2-no-raise-per-operation — the planner raises nothing from inside its
 loops (its only internal assertion is on the final, merged combination).
+R3 (fourth round) pack_distribution assigns no self.* attribute and returns no self.* value while plan_autopack_combinations deletes from the
+   list it is given: the distribution is a fresh list per planning round.
 Does not decide: the digit-sum bound after packing, "at least two packs" (the AssertionError for a single pack is
 reachable or not depending on integer inputs) or index errors on pack_distribution[0] — unbounded integer arithmetic,
 out of reach for static analysis without a solver.
@@ -144,9 +146,18 @@ def run(ctx):
     fe = repo.func(PR, f"{COLL}._execute_pack_operations")
     lt = loop_targets(fe, lambda t, n: t == "pack_operations")
     ctx.check("R3-empty-operations-skipped", f"{PR}:{COLL}._execute_pack_operations", len(lt) >= 1 and len(lt[0]) == 2 and any(isinstance(n, ast.If) and norm(n.test) in (f"len({lt[0][1]}) == 0", f"not {lt[0][1]}") and any(isinstance(b, ast.Continue) for b in n.body) for n in walk_own(fe)), "an operation without packs is skipped by the executor")
+    # ---- R3: the distribution handed to the planner is a list of its own (the planner consumes it in place) -------------
+    fpd = repo.func(PR, "RepositoryPackCollection.pack_distribution")
+    wpd = f"{PR}:RepositoryPackCollection.pack_distribution"
+    state_w = sorted({norm(t) for a in ast.walk(fpd) if isinstance(a, (ast.Assign, ast.AugAssign)) for t in (a.targets if isinstance(a, ast.Assign) else [a.target]) if norm(t).startswith("self.")})
+    state_r = sorted({norm(r_.value) for r_ in ast.walk(fpd) if isinstance(r_, ast.Return) and r_.value is not None and any(isinstance(n_, ast.Attribute) and isinstance(n_.value, ast.Name) and n_.value.id == "self" for n_ in ast.walk(r_.value))})
+    fplan = repo.func(PR, "RepositoryPackCollection.plan_autopack_combinations")
+    consumes = any(isinstance(d_, ast.Delete) for d_ in ast.walk(fplan)) or any(call_attr(c) in ("pop", "remove") for c in calls_in(fplan))
+    ctx.check("R3-distribution-not-shared", wpd, not consumes or (not state_w and not state_r), "pack_distribution keeps nothing on the collection and returns a freshly built list (plan_autopack_combinations deletes from it as it plans)", construct=f"stored {state_w}; returned {state_r}", message=f"pack_distribution keeps its result on the collection ({state_w or state_r}) while plan_autopack_combinations consumes the list in place: a second planning round for the same total (a commit retried on the same object after a failed autopack) gets an emptied distribution and the planner fails with IndexError")
 
 
 MUTANTS = [
+    Mutant("pack distribution remembered on the collection", PR, "        return list(reversed(result))\n", "        self._last_distribution = list(reversed(result))\n        return self._last_distribution\n", expect="R3-distribution-not-shared"),
     Mutant("revisions counted once before the retry loop", PR, '        while True:\n            try:\n                return self._do_autopack()\n            except RetryAutopack:\n                # If we get a RetryAutopack exception, we should abort the\n                # current action, and retry.\n                pass\n\n    def _do_autopack(self):\n        # XXX: Should not be needed when the management of indices is sane.\n        total_revisions = self.revision_index.combined_index.key_count()\n', '        total_revisions = self.revision_index.combined_index.key_count()\n        while True:\n            try:\n                return self._do_autopack(total_revisions)\n            except RetryAutopack:\n                # If we get a RetryAutopack exception, we should abort the\n                # current action, and retry.\n                pass\n\n    def _do_autopack(self, total_revisions):\n', expect="R1-total-counted-per-attempt"),
     Mutant("single-pack assertion per sub-operation", PR, "        for num_revs, pack_files in pack_operations:\n            final_rev_count += num_revs\n", "        for num_revs, pack_files in pack_operations:\n            if len(pack_files) == 1:\n                raise AssertionError(\"single pack\")\n            final_rev_count += num_revs\n", expect="R2-no-raise-per-operation"),
     Mutant("neutral: dead return after the final assertion removed", PR, "                \"We somehow generated an autopack with a single pack file being moved.\"\n            )\n            return []\n", "                \"We somehow generated an autopack with a single pack file being moved.\"\n            )\n", neutral=True),
